@@ -93,16 +93,10 @@ def _scalar_forms(node, kind):
     if isinstance(o, bytes):
         o = o.decode("utf-8", "replace")
     strict = "%s:%s" % (kind, _text(repr(o) if kind == "float" else o))
+    # cross-type numeric twins (1 / 1.0 / true are == in Python) are DIFFERENT document values: a number is not a boolean
+    # and `1` is not `1.0` in any of the file formats.  (Until round 4 they were identified in the loose hash - an
+    # "ambiguous domain" - which hid finding F29: containers compared them equal while leaves did not.)
     loose = strict
-    if kind in ("int", "float", "bool"):
-        try:
-            f = float(o)
-            if f == int(f) and abs(f) < 2 ** 62:
-                loose = "num:%d" % int(f)
-            else:
-                loose = "num:%r" % f
-        except (TypeError, ValueError, OverflowError):
-            pass
     return strict, loose
 
 
